@@ -47,7 +47,8 @@ impl Location<'_> {
         let pc = u64::from(pc);
         let entry = iter
             .find(|list_entry| match list_entry {
-                Ok(list_entry) => list_entry.range.begin <= pc && list_entry.range.end >= pc,
+                // address ranges of location list entries are half-open: [begin, end)
+                Ok(list_entry) => list_entry.range.begin <= pc && pc < list_entry.range.end,
                 Err(_) => true,
             })
             .transpose()
